@@ -11,6 +11,7 @@ unchanged over all samples of a >= 10 s (quick) / 20 s (thorough) window.
 A watchdog that fires without that is inconclusive.
 """
 import concurrent.futures
+import os
 import time
 import zlib
 
@@ -79,12 +80,52 @@ def mk(call, loss, variant, timing, medium="link", role=None, tmo=None, f=None, 
         role = "client"
     a = dict(call=call, loss=loss, variant=variant, timing=timing, medium=medium, role=role, tmo=tmo)
     if timing == "during":
-        if k is not None:
+        if kw.get("at"):
+            pass
+        elif k is not None:
             a["k"] = k
         else:
             a["f"] = 0.5 if f is None else f
     a.update(kw)
     return a
+
+
+# preemption points named by source line (robust to line shifts): the caller
+# is parked just before executing a line of `qualname` containing `text`
+AT_EVENT_PENDING = {
+    "exec_command": ("Channel.exec_command", "self._event_pending()"),
+    "invoke_shell": ("Channel.invoke_shell", "self._event_pending()"),
+    "get_pty": ("Channel.get_pty", "self._event_pending()"),
+    "invoke_subsystem": ("Channel.invoke_subsystem", "self._event_pending()"),
+    "request_x11": ("Channel.request_x11", "self._event_pending()"),
+    "open_sftp_client": ("Channel.invoke_subsystem", "self._event_pending()"),
+}
+AT_CHANNEL_REGISTERED = ("Transport.open_channel", "self.channel_events[chanid] = event")
+AT_ACCEPT_WAIT = ("Transport.accept", "self.server_accept_cv.wait(timeout)")
+
+
+def pinned(call, seed, ci):
+    """Cells visited at every seed: the places where a lost wake-up is most
+    likely (a waiter that checks a flag and then waits on an event)."""
+    out = []
+    rot = ["peer_close", "link_abrupt", "local_close", "link_eof"]
+    if call in AT_EVENT_PENDING:
+        out.append(mk(call, rot[(ci + seed) % 4], None, "during", at=AT_EVENT_PENDING[call]))
+    if call in ("open_session", "open_channel", "open_sftp_client"):
+        out.append(mk(call, rot[(ci + seed) % 4], None, "during", at=AT_CHANNEL_REGISTERED))
+    if call == "accept":
+        out.append(mk(call, "link_eof", None, "after"))
+        out.append(mk(call, "local_close", None, "after"))
+        out.append(mk(call, "local_close", None, "before"))
+        out.append(mk(call, "peer_close", None, "before"))
+        out.append(mk(call, rot[(ci + seed) % 4], None, "during", at=AT_ACCEPT_WAIT))
+    if call == "accept_x2":
+        out.append(mk(call, "peer_close", None, "before"))
+        out.append(mk(call, "link_eof", None, "before", role="client"))
+    if call.endswith("_svc"):
+        out.append(mk(call, "link_eof", None, "before"))
+        out.append(mk(call, "local_close", None, "before"))
+    return out
 
 
 def quick_cases(ctx, calls):
@@ -96,33 +137,25 @@ def quick_cases(ctx, calls):
     for call in calls:
         ci = names.index(call)
         spec = CALLS[call]
-        client_ok = "client" in spec["roles"]
-        kinds = ["peer_close", "link_eof", "link_abrupt", "local_close", "garbage"]
-        if client_ok:
-            kinds.append("proxy_exit")
+        kinds = ["peer_close", "link_eof", "link_abrupt", "local_close", "garbage", "proxy_exit"]
         for li, kind in enumerate(kinds):
             timing = TIMINGS[(ci + li + ctx.seed) % 3]
             f = round(rng.random(), 3)
             if kind == "proxy_exit":
-                out.append(mk(call, kind, PROXY_EXITS[(ci + ctx.seed) % 3], timing, medium="proxy", f=f))
+                out.append(mk(call, kind, PROXY_EXITS[(ci + ctx.seed) % 4], timing, medium="proxy", f=f))
             elif kind == "garbage":
                 out.append(mk(call, kind, GARBAGE[(ci + ctx.seed) % 3], timing, f=f))
             else:
                 out.append(mk(call, kind, None, timing, f=f))
-        # pinned: the call made after a remote and after a local loss, and the
-        # call parked before a local close
-        out.append(mk(call, "link_eof", None, "after"))
-        out.append(mk(call, "local_close", None, "before"))
-        out.append(mk(call, "peer_close", None, "before"))
+        out.extend(pinned(call, ctx.seed, ci))
         if len(spec["roles"]) > 1:
-            out.append(mk(call, "peer_close", None, TIMINGS[(ci + ctx.seed) % 3], role=spec["roles"][1], f=f))
-        if call in CHANNEL_REQUESTS or call in ("open_sftp_client",):
-            # loss between the "channel is open" check and the wait for the reply
-            out.append(mk(call, ["peer_close", "link_abrupt", "local_close"][(ci + ctx.seed) % 3], None, "during", f=0.08))
-            out.append(mk(call, "link_eof", None, "during", f=0.3))
+            out.append(mk(call, ["peer_close", "local_close", "link_eof"][(ci + ctx.seed) % 3], None,
+                          TIMINGS[(ci + ctx.seed) % 3], role=spec["roles"][1], f=f))
         if spec.get("tmo"):
-            out.append(mk(call, "link_eof", None, "before", tmo=2.0))
-            out.append(mk(call, "peer_close", None, "after", tmo=[0.0, 0.3][(ci + ctx.seed) % 2]))
+            if (ci + ctx.seed) % 2:
+                out.append(mk(call, "link_eof", None, "before", tmo=2.0))
+            else:
+                out.append(mk(call, "peer_close", None, "after", tmo=[0.0, 0.3][(ci // 2 + ctx.seed) % 2]))
     return out
 
 
@@ -258,6 +291,8 @@ def judge(ctx, a, res, sample=False):
         ctx.count("relay_process_exits_observed")
     if a["timing"] == "during":
         ctx.count("preemption_points_reached" if v.get("k_reached") else "preemption_points_not_reached")
+        if a.get("at"):
+            ctx.count("named_preemption_points_reached" if v.get("k_reached") else "named_preemption_points_missed")
     if v.get("inject_error"):
         ctx.inconclusive("case %s: loss injection failed: %s" % (a, v["inject_error"][-400:]))
         return
@@ -346,9 +381,13 @@ def run_batch(ctx, cases, workers, window, stop_at=None, samples_wanted=0):
     def one(a):
         a = dict(a, seed=ctx.seed * 7919 + zlib.crc32(repr(sorted(a.items())).encode()) % 100000, window=window)
         z = STATE.get("zygote")
+        t0 = time.time()
         if z is not None and not z.dead:
-            return a, z.call("vf.c13_case:run_case", a, timeout=8 * window + 240)
-        return a, iso.call("vf.c13_case:run_case", a, timeout=8 * window + 240)
+            res = z.call("vf.c13_case:run_case", a, timeout=8 * window + 240)
+        else:
+            res = iso.call("vf.c13_case:run_case", a, timeout=8 * window + 240)
+        res["wall"] = round(time.time() - t0, 2)
+        return a, res
 
     with concurrent.futures.ThreadPoolExecutor(max_workers=workers) as ex:
         futs = []
@@ -362,6 +401,10 @@ def run_batch(ctx, cases, workers, window, stop_at=None, samples_wanted=0):
                 continue
             results.append(r)
     for i, (a, res) in enumerate(results):
+        if res.get("cpu"):
+            ctx.count("case_cpu_ms", int(1000 * sum(res["cpu"])))
+            if os.environ.get("VF_C13_DEBUG"):
+                print("CPU", res["cpu"], "WALL", res.get("wall"), (res.get("value") or {}).get("phases"), {k: v for k, v in a.items() if k not in ("seed", "window")}, flush=True)
         a = {k: v for k, v in a.items() if k not in ("seed", "window")}
         judge(ctx, a, res, sample=(done < samples_wanted and i % 7 == 0))
         done += 1
@@ -371,6 +414,18 @@ def run_batch(ctx, cases, workers, window, stop_at=None, samples_wanted=0):
 
 
 STATE = {}
+
+
+def lines_measured(ctx, results):
+    """N per call = paramiko LINE events the caller executed before it first waited (max over the
+    'before' cases of this shard, which trace the caller without perturbing it)."""
+    nlines = {}
+    for a, r in results:
+        n = (r.get("value") or {}).get("n_lines")
+        if n and a.get("tmo") is None and a.get("role") == CALLS[a["call"]]["roles"][0]:
+            nlines[a["call"]] = max(n, nlines.get(a["call"], 0))
+    ctx.count("lines_before_first_wait_measured", sum(nlines.values()))
+    return nlines
 
 
 def run(ctx):
@@ -400,11 +455,27 @@ def _run(ctx):
     window = 10.0 if ctx.quick else 20.0
     if ctx.quick:
         cases = quick_cases(ctx, calls)
-        run_batch(ctx, cases, 5, window, samples_wanted=2)
+        # phase 1: everything but the f-fraction 'during' cases; the 'before' cases also count
+        # how many paramiko lines the call executes before it first waits (N per call)
+        first = [dict(c, count_lines=True) if c["timing"] == "before" else c
+                 for c in cases if not (c["timing"] == "during" and "f" in c)]
+        res = run_batch(ctx, first, 6, window, samples_wanted=2)
+        nlines = lines_measured(ctx, res)
+        # phase 2: park the caller at line k = f*N and inject the loss there
+        second = []
+        for c in cases:
+            if c["timing"] == "during" and "f" in c:
+                n = nlines.get(c["call"])
+                if n:
+                    c = dict(c, k=min(int(c["f"] * n), n - 1))
+                    del c["f"]
+                second.append(c)  # (without N the child measures it itself on a second pair)
+        run_batch(ctx, second, 6, window, samples_wanted=1)
         ctx.require("cases_run", 6 * len(names))
         ctx.require("calls_completed_after_loss", 2 * len(names))
         ctx.require("transport_inactive_after_loss", 2 * len(names))
         ctx.require("preemption_points_reached", 10)
+        ctx.require("named_preemption_points_reached", 8)
         ctx.require("relay_process_exits_observed", 8)
         for t in TIMINGS:
             ctx.require("timing_" + t, len(names))
@@ -412,17 +483,9 @@ def _run(ctx):
             ctx.require("loss_" + l, len(names) - 4)
         return
     stop_at = ctx.t0 + 400
-    base = thorough_base(ctx, calls)
-    # one counting run per call tells how many lines the call executes before it first waits
-    counters = [mk(c, "peer_close", None, "before", count_lines=True) for c in calls]
-    res = run_batch(ctx, counters, 4, window, samples_wanted=1)
-    nlines = {}
-    for a, r in res:
-        n = (r.get("value") or {}).get("n_lines")
-        if n:
-            nlines[a["call"]] = n
-            ctx.count("lines_before_first_wait_measured", n)
-    run_batch(ctx, base, 4, window, samples_wanted=1)
+    base = [dict(c, count_lines=True) if c["timing"] == "before" else c for c in thorough_base(ctx, calls)]
+    res = run_batch(ctx, base, 4, window, samples_wanted=2)
+    nlines = lines_measured(ctx, res)
     during = thorough_during(ctx, calls, nlines)
     ctx.rng.shuffle(during)
     run_batch(ctx, during, 4, window, stop_at=stop_at, samples_wanted=1)
